@@ -348,6 +348,28 @@ func hostileReplies() []hostileReply {
 			w.WriteHeader(500)
 			_, _ = w.Write([]byte("late"))
 		}},
+		// framing headers that the handler sets AFTER its head (net/http ignores them there): they
+		// must not frame what the transcoder sends
+		hostileReply{"late-content-length-then-error", func(hb *hostileBackend, w http.ResponseWriter, r *http.Request) {
+			ct := r.Header.Get("Content-Type")
+			if ct == "" {
+				ct = "application/grpc+proto"
+			}
+			head(200, "Content-Type", ct)(w)
+			_, _ = w.Write(frame)
+			w.Header().Set("Content-Length", "400")
+			w.Header().Set(http.TrailerPrefix+"Grpc-Status", "5")
+			w.Header().Set(http.TrailerPrefix+"Grpc-Message", "nope")
+		}},
+		hostileReply{"late-content-length-then-ok", func(hb *hostileBackend, w http.ResponseWriter, r *http.Request) {
+			auto(nil)(hb, w, r)
+			w.Header().Set("Content-Length", "3")
+			w.Header().Set("Transfer-Encoding", "chunked")
+		}},
+		hostileReply{"late-content-length-then-return", func(hb *hostileBackend, w http.ResponseWriter, r *http.Request) {
+			head(200, "Content-Type", r.Header.Get("Content-Type"))(w)
+			w.Header().Set("Content-Length", "400")
+		}},
 		hostileReply{"writeheader-twice-first", func(hb *hostileBackend, w http.ResponseWriter, r *http.Request) {
 			head(200, "Content-Type", r.Header.Get("Content-Type"))(w)
 			w.WriteHeader(404)
